@@ -283,12 +283,16 @@ class TileManager(object):
         Return the timestamp until which a tile should be accepted as up-to-date,
         or ``None`` if the tiles should not expire.
 
-        :note: Returns _expire_timestamp by default.
+        :note: Returns _expire_timestamp (the time of the running seed or
+            cleanup task) if it is set, else the time of the refresh_before
+            option of the cache.
         """
+        if self._expire_timestamp is not None:
+            return self._expire_timestamp
         if self._refresh_before:
             from mapproxy.seed.config import before_timestamp_from_options
             return before_timestamp_from_options(self._refresh_before)
-        return self._expire_timestamp
+        return None
 
     def apply_tile_filter(self, tile):
         """
